@@ -90,7 +90,7 @@ def parse_tlc(out, res):
         v = 'Invariant ' + m.group(1)
     elif re.search(r'Error: Action property (\S+)', out):
         v = 'ActionProperty ' + re.search(r'Error: Action property (\S+)', out).group(1)
-    elif 'Temporal properties were violated' in out:
+    elif 'Temporal properties were violated' in out or re.search(r'Temporal property \S+ was violated', out):
         v = 'Temporal'
     elif 'Error: Deadlock reached' in out:
         v = 'Deadlock'
@@ -233,7 +233,7 @@ class Ctx:
         self._md += 1
         md = os.path.join(self.work, 'md%d' % self._md)
         cmd = self._tlc_base(java_opts, heap, deque)
-        cmd += ['-workers', str(workers or NCPU), '-metadir', md, '-config', cfg]
+        cmd += ['-workers', str(workers or NCPU), '-metadir', md, '-config', cfg, '-noGenerateSpecTE']
         if dump:
             cmd += ['-dump', 'dot,actionlabels', dump]
         if simulate:
